@@ -962,6 +962,68 @@ func vrBaseMultCase(name string, f func([]byte) (*SM2Point, error)) func(c *vrCa
 	}
 }
 
+// vrCaseWindows: every value of every window at every position of the production schedule (6-3-14 plus the
+// 4-bit remainder), one window at a time, through the public entry ScalarBaseMult: 42*63 + 15 = 2661 scalars
+// (exhaustive when n >= 1000, every 7th otherwise). Also checks that the schedule of every scheme covers each of
+// the 256 bit positions exactly once.
+func vrCaseWindows(c *vrCase) {
+	for _, s := range vrSchemes {
+		seen := make([]int, 256)
+		for i := 0; i < s.iter; i++ {
+			for j := 0; j < s.sub; j++ {
+				for t := 0; t < s.window; t++ {
+					seen[t*s.sub*s.iter+i+j*s.iter+s.rem]++
+				}
+			}
+		}
+		for b := 0; b < s.rem; b++ {
+			seen[b]++
+		}
+		for b, n := range seen {
+			c.check(n == 1, fmt.Sprintf(`{"scheme":"%d-%d-%d-%d","bit":%d}`, s.window, s.sub, s.iter, s.rem, b), n, 1)
+		}
+	}
+	s := vrSchemes[0]
+	stride := 7
+	if c.n >= 1000 {
+		stride = 1
+	}
+	cnt := 0
+	one := func(v *big.Int) {
+		cnt++
+		if cnt%stride != 0 {
+			return
+		}
+		k := vrB32(v)
+		want := vrEnc(vrMulPt(v, vrG))
+		in := fmt.Sprintf(`{"k":"%s"}`, vrHex(k))
+		var p *SM2Point
+		var err error
+		if pn := vrTry(func() { p, err = ScalarBaseMult(k) }); pn != "" || err != nil || p == nil {
+			c.check(false, in, fmt.Sprintf("panic=%q err=%v", pn, err), vrHex(want))
+			return
+		}
+		got := p.Bytes()
+		c.check(bytes.Equal(got, want), in, vrHex(got), vrHex(want))
+	}
+	for i := 0; i < s.iter; i++ {
+		for j := 0; j < s.sub; j++ {
+			for val := 1; val < 1<<uint(s.window); val++ {
+				v := new(big.Int)
+				for t := 0; t < s.window; t++ {
+					if val>>uint(t)&1 == 1 {
+						v.SetBit(v, t*s.sub*s.iter+i+j*s.iter+s.rem, 1)
+					}
+				}
+				one(v)
+			}
+		}
+	}
+	for val := 1; val < 1<<uint(s.rem); val++ {
+		one(big.NewInt(int64(val)))
+	}
+}
+
 func vrCaseScalarMult(c *vrCase) {
 	pl := vrNewPool(c, 12)
 	one := func(a vrPt, k []byte) {
@@ -1312,6 +1374,7 @@ func TestVerifReplay(t *testing.T) {
 	e.run("scalarBaseMult_SkipBitExtraction_4_2_32", vrBaseMultCase("4_2_32", scalarBaseMult_SkipBitExtraction_4_2_32))
 	e.run("scalarBaseMult_SkipBitExtraction_5_3_17", vrBaseMultCase("5_3_17", scalarBaseMult_SkipBitExtraction_5_3_17))
 	e.run("scalarBaseMult_SkipBitExtraction_7_3_12", vrBaseMultCase("7_3_12", scalarBaseMult_SkipBitExtraction_7_3_12))
+	e.run("ScalarBaseMult.windows", vrCaseWindows)
 	e.run("ScalarMult", vrCaseScalarMult)
 	e.run("ScalarMixedMult_Unsafe", vrCaseMixedMult)
 	e.run("extractBit", vrCaseExtractBit)
